@@ -83,10 +83,15 @@ def gen_cases(tier, rng):
             op = rng.choice(["min", "max", "shift", "diff"])
         w = rng.randint(1, 5)
         minp = 0 if rng.random() < 0.1 else rng.randint(1, w)  # 0 is outside the property's range but accepted by the code: tied to the model too
+        default_minp = False
+        if rng.random() < 0.15:
+            # min_periods left at its default (= the window), with windows that can exceed the largest group
+            w = rng.randint(2, 9)
+            minp, default_minp = w, True
         level = rng.choice(["kernel", "public", "public"])
         by_groups = level == "public" and op in ("sum", "mean", "min", "max") and rng.random() < 0.3 and dt in ("f64", "f32")
         yield dict(level=level, op=op, dt=dt, window=w, minp=minp, codes=codes, vals=vals, mask=mask, ng=ng, by_groups=by_groups,
-                   container=rng.choice(["ndarray", "series"]))
+                   container=rng.choice(["ndarray", "series"]), **({"default_minp": True} if default_minp else {}))
     if tier == "thorough":
         import itertools
         for L in range(1, 7):
@@ -139,6 +144,7 @@ def evaluate(case, drv):
     from groupby_lib.groupby.core import GroupBy
 
     op, dt, w, minp = case["op"], case["dt"], case["window"], case["minp"]
+    api_minp = None if case.get("default_minp") else minp       # what the real call gets; the model always sees the number
     npdt, kind, null = DTYPES[dt]
     temporal = npdt.kind in "mM"
     if case.get("big"):
@@ -179,8 +185,9 @@ def evaluate(case, drv):
         if c >= 0 and s:
             per_group[c] = per_group.get(c, 0) + 1
     res = dict(tags=[f"level:{case['level']}", f"op:{op}", f"dt:{dt}", f"window:{w}", "mask:" + ("none" if case["mask"] is None else "b"),
-                     "by-groups" if case["by_groups"] else "flat", "evict" if max(list(per_group.values()) + [0]) > w else "no-evict"],
-               size=L, key=line + f"|{case['level']}|{dt}|{case['by_groups']}|{case.get('container')}",
+                     "by-groups" if case["by_groups"] else "flat", "evict" if max(list(per_group.values()) + [0]) > w else "no-evict",
+                     "minp:default" if case.get("default_minp") else "minp:given"],
+               size=L, key=line + f"|{case['level']}|{dt}|{case['by_groups']}|{case.get('container')}|{case.get('default_minp')}",
                nontrivial=max(list(per_group.values()) + [0]) > w,
                bucket=(case["level"], op, dt, case["mask"] is not None, case["by_groups"]))
 
@@ -197,7 +204,7 @@ def evaluate(case, drv):
             if op in ("shift", "diff"):
                 out = getattr(nbk, "rolling_" + op)(key, values, case["ng"], w, mask)
             else:
-                out = getattr(nbk, "rolling_" + op)(key, values, case["ng"], w, minp, mask)
+                out = getattr(nbk, "rolling_" + op)(key, values, case["ng"], w, api_minp, mask)
             out = np.asarray(out)
         else:
             keys = np.array([np.nan if c < 0 else c + 0.5 for c in codes])
@@ -214,9 +221,9 @@ def evaluate(case, drv):
             elif op == "diff":
                 r = gb.diff(values, window=w, mask=mask)
             else:
-                r = getattr(gb, "rolling_" + op)(values, window=w, min_periods=minp, mask=mask, index_by_groups=case["by_groups"])
+                r = getattr(gb, "rolling_" + op)(values, window=w, min_periods=api_minp, mask=mask, index_by_groups=case["by_groups"])
             if case["by_groups"]:
-                flat = getattr(gb, "rolling_" + op)(values, window=w, min_periods=minp, mask=mask, index_by_groups=False)
+                flat = getattr(gb, "rolling_" + op)(values, window=w, min_periods=api_minp, mask=mask, index_by_groups=False)
             elif index is not None and list(r.index) != list(index):
                 return bad("violation", f"result index {list(r.index)[:5]} differs from the input's")
             out = r.to_numpy()
